@@ -418,7 +418,7 @@ func runC07(c *Ctx) {
 					}
 					for pi, prm := range h.Params {
 						if Derives(call.Call.Args[1], func(v ssa.Value) bool { return v == ssa.Value(prm) }) {
-							t, _ := PathAvoiding(h, h.Blocks[0].Instrs[0], func(in ssa.Instruction) bool { _, isRet := in.(*ssa.Return); return isRet }, func(in ssa.Instruction) bool { return in == ssa.Instruction(sc) }, nil)
+							t, _ := PathAvoiding(h, nil, func(in ssa.Instruction) bool { _, isRet := in.(*ssa.Return); return isRet }, func(in ssa.Instruction) bool { return in == ssa.Instruction(sc) }, nil)
 							if t == nil {
 								helpers[h] = helperSum{pi}
 							}
